@@ -179,11 +179,12 @@ func jsonMutate(t *rapid.T, doc []byte) []byte {
 		[]any{[]any{[]any{[]any{}}}}}
 	type site struct {
 		set func(any)
+		cur any
 	}
 	var sites []site
 	var walk func(x any, set func(any))
 	walk = func(x any, set func(any)) {
-		sites = append(sites, site{set})
+		sites = append(sites, site{set, x})
 		switch c := x.(type) {
 		case map[string]any:
 			keys := make([]string, 0, len(c))
@@ -207,6 +208,35 @@ func jsonMutate(t *rapid.T, doc []byte) []byte {
 	n := rapid.IntRange(1, 2).Draw(t, "jsonEdits")
 	for i := 0; i < n; i++ {
 		s := sites[rapid.IntRange(0, len(sites)-1).Draw(t, "site")]
+		if rapid.Bool().Draw(t, "typeAware") {
+			// keep the type, change the size / magnitude
+			switch c := s.cur.(type) {
+			case string:
+				s.set(rapid.SampledFrom([]string{c + "00", c + "0000000000", c + c, strings.ToUpper(c), "00", c[:len(c)/2], c[:len(c)-len(c)%2-min(2, len(c))], c + "0"}).Draw(t, "str"))
+			case float64:
+				s.set(rapid.SampledFrom([]float64{c + 1, c - 1, 255, 256, 65535, 65536, 4294967295, 4294967296, -1, 0.5}).Draw(t, "num"))
+			case []any:
+				switch rapid.IntRange(0, 3).Draw(t, "arr") {
+				case 0:
+					s.set([]any{})
+				case 1:
+					if len(c) > 0 {
+						s.set(c[:len(c)-1])
+					}
+				case 2:
+					if len(c) > 0 {
+						s.set(append(append([]any{}, c...), c[0]))
+					}
+				case 3:
+					if len(c) > 0 {
+						s.set(append([]any{nil}, c[1:]...))
+					}
+				}
+			default:
+				s.set(rapid.SampledFrom(repl).Draw(t, "replacement"))
+			}
+			continue
+		}
 		s.set(rapid.SampledFrom(repl).Draw(t, "replacement"))
 	}
 	out, err := json.Marshal(root)
@@ -214,6 +244,79 @@ func jsonMutate(t *rapid.T, doc []byte) []byte {
 		return doc
 	}
 	return out
+}
+
+// jsonSizeVariants enumerates, for every string / array / number node of a JSON document, variants
+// that keep the node's type but change its size or magnitude.
+func jsonSizeVariants(doc []byte) (out [][]byte, names []string) {
+	var root any
+	if json.Unmarshal(doc, &root) != nil {
+		return nil, nil
+	}
+	type site struct {
+		path string
+		set  func(any)
+		cur  any
+	}
+	var sites []site
+	var walk func(path string, x any, set func(any))
+	walk = func(path string, x any, set func(any)) {
+		sites = append(sites, site{path, set, x})
+		switch c := x.(type) {
+		case map[string]any:
+			keys := make([]string, 0, len(c))
+			for k := range c {
+				keys = append(keys, k)
+			}
+			sort.Strings(keys)
+			for _, k := range keys {
+				k := k
+				walk(path+"."+k, c[k], func(n any) { c[k] = n })
+			}
+		case []any:
+			for i := range c {
+				i := i
+				walk(fmt.Sprintf("%s[%d]", path, i), c[i], func(n any) { c[i] = n })
+			}
+		}
+	}
+	walk("", root, func(n any) { root = n })
+	emit := func(st site, name string, v any) {
+		st.set(v)
+		b, err := json.Marshal(root)
+		st.set(st.cur)
+		if err == nil {
+			out = append(out, b)
+			names = append(names, st.path+":"+name)
+		}
+	}
+	for _, st := range sites {
+		switch c := st.cur.(type) {
+		case string:
+			emit(st, "grow-1-byte", c+"00")
+			emit(st, "grow-odd", c+"0")
+			emit(st, "double", c+c)
+			emit(st, "empty", "")
+			if len(c) >= 2 {
+				emit(st, "shrink-1-byte", c[:len(c)-2])
+			}
+		case float64:
+			emit(st, "plus-1", c+1)
+			emit(st, "256", 256.0)
+			emit(st, "65536", 65536.0)
+			emit(st, "minus-1", -1.0)
+		case []any:
+			emit(st, "empty", []any{})
+			if len(c) > 0 {
+				emit(st, "shorter", append([]any{}, c[:len(c)-1]...))
+				emit(st, "longer", append(append([]any{}, c...), c[0]))
+				emit(st, "null-first", append([]any{nil}, c[1:]...))
+			}
+		case map[string]any:
+			emit(st, "null", nil)
+		}
+	}
+	return out, names
 }
 
 func TestC10(t *testing.T) {
@@ -278,6 +381,41 @@ func TestC10(t *testing.T) {
 				gen.NonTrivial("size", f.Name, v)
 			}
 		}
+	})
+
+	// (2b) every size / magnitude variant of every node of the two collateral documents, CORRECTLY RE-SIGNED, so
+	// that the value logic behind the signature check is reached with each odd shape.
+	gen.Direct(t, "signed-collateral-shapes", func(t *testing.T) {
+		i := 0
+		for _, mod := range []byte{0, 1} {
+			w := gen.NewWorld(base.PKI, gen.NewStream(gen.Seed()+uint64(mod), "c10shape"))
+			w.Q.TeeTcbSvn[1] = mod
+			w.HonestCollateral()
+			w.Build()
+			for _, k := range []c03Kind{kindTcb, kindQe} {
+				docs, names := jsonSizeVariants(k.render(w))
+				for di, doc := range docs {
+					i++
+					if !gen.ShardOwns(i) {
+						continue
+					}
+					saved := w.Resp[k.url(w)]
+					w.Resp[k.url(w)] = gen.Response{Header: saved.Header, Body: gen.SignedBody(k.member, doc, k.signer(w).Key)}
+					for _, l := range []gen.Level{gen.LvlColl, gen.LvlCRL} {
+						o := w.Options(l, w.NewGetter(), nil)
+						rp := w.CaseFile(l, nil, nil, nil, "nopanic")
+						c10Call(t, "verify.RawTdxQuote+signed-"+k.name+"-shape", rp, func() error { return verify.RawTdxQuote(w.Raw, o) })
+					}
+					w.Resp[k.url(w)] = saved
+					gen.NonTrivial("shape", k.name, names[di], mod)
+					if di%41 == 0 {
+						gen.Sample("signed-collateral-shape", k.name+names[di])
+					}
+					gen.Class("signed-collateral-shape")
+				}
+			}
+		}
+		gen.Exhaustive("size / magnitude variants of every JSON node of correctly re-signed TCB Info and QE Identity documents", true)
 	})
 
 	// (3) random: mutated raw quotes, random message edits, arbitrary collateral, arbitrary SGX extension DER.
@@ -395,8 +533,10 @@ func TestC10(t *testing.T) {
 			v := drawSgxValues(t, s)
 			top := gen.SgxTree(v)
 			var der []byte
-			if rapid.Bool().Draw(t, "catalogue") {
+			if cat := rapid.IntRange(0, 2).Draw(t, "catalogue"); cat == 0 {
 				der, _, _ = c13Mutate(t, rapid.SampledFrom(c13Malformations).Draw(t, "variant"), top, s)
+			} else if cat == 1 {
+				der = c13Oddity(t, rapid.SampledFrom(c13Oddities).Draw(t, "oddity"), top)
 			} else {
 				der = top.Encode()
 				for i, n := 0, rapid.IntRange(1, 4).Draw(t, "edits"); i < n; i++ {
